@@ -118,6 +118,10 @@ func cmdRun(args []string) int {
 	if os.Getenv("GOSYM_SLOWLOG") != "" {
 		f, _ := os.Create(os.Getenv("GOSYM_SLOWLOG"))
 		solver.SlowLog = f
+		if v := os.Getenv("GOSYM_SLOWMS"); v != "" {
+			ms, _ := strconv.Atoi(v)
+			solver.SlowThreshold = float64(ms) / 1000
+		}
 		defer f.Close()
 	}
 	t0 := time.Now()
